@@ -65,8 +65,9 @@ Theorem C26_model_meets_spec : forall batch storms,
   Forall (Forall (Forall api)) batch ->
   spec_ok {| c_runs := map (fun phases => {| r_phases := phases;
                                              r_obs := Survived (run_phases st0 phases) |}) batch;
-             c_storms := map (fun kw => {| s_pipes := fst kw; s_workers := snd kw;
-                                           s_obs := StormSurvived false (reg st0) |}) storms |} = true.
+             c_storms := map (fun kwr => {| s_pipes := fst (fst kwr); s_workers := snd (fst kwr);
+                                            s_races := snd kwr;
+                                            s_obs := StormSurvived false 0 (reg st0) |}) storms |} = true.
 Proof. exact model_meets_spec_batch. Qed.
 Print Assumptions C26_model_meets_spec.
 
@@ -82,6 +83,16 @@ Theorem C26_storm_round_restores : forall s n,
 Proof. exact storm_round_restores. Qed.
 Print Assumptions C26_storm_round_restores.
 
+(* names stay unique under contention: of any number of racing Create n on a
+   free name exactly one succeeds (the first to take its atomic step), the others
+   are refused, and n is registered once *)
+Theorem C26_create_race_one_winner : forall s n k,
+  has n (reg s) = false ->
+  results s (repeat (Create n) (S k)) = ROk :: repeat RErr k /\
+  reg (run s (repeat (Create n) (S k))) = insert n 1 (reg s).
+Proof. exact create_race_one_winner. Qed.
+Print Assumptions C26_create_race_one_winner.
+
 (* Non-vacuity: a registry with a double close and a close-then-delete is
    accepted when observed as the (fixed) model predicts; spec_ok rejects a crash,
    a closed pipe that is still there after the grace period, and a Close on a
@@ -96,9 +107,11 @@ Example C26_nonvacuous :
                                                  po_dump := [(0,0); (1,1)]%N |}] |}]; c_storms := [] |} = false /\
   spec_ok {| c_runs := [{| r_phases := [[Close 1]]%N;
                            r_obs := Survived [{| po_res := [ROk]; po_dump := [(0,0)]%N |}] |}]; c_storms := [] |} = false /\
-  spec_ok {| c_runs := []; c_storms := [{| s_pipes := 300; s_workers := 6; s_obs := StormDied |}]%N |} = false /\
-  spec_ok {| c_runs := []; c_storms := [{| s_pipes := 300; s_workers := 6;
-                                           s_obs := StormSurvived false [(0,0)]%N |}]%N |} = true.
+  spec_ok {| c_runs := []; c_storms := [{| s_pipes := 300; s_workers := 6; s_races := 1000; s_obs := StormDied |}]%N |} = false /\
+  spec_ok {| c_runs := []; c_storms := [{| s_pipes := 300; s_workers := 6; s_races := 1000;
+                                           s_obs := StormSurvived false 2 [(0,0)]%N |}]%N |} = false /\
+  spec_ok {| c_runs := []; c_storms := [{| s_pipes := 300; s_workers := 6; s_races := 1000;
+                                           s_obs := StormSurvived false 0 [(0,0)]%N |}]%N |} = true.
 Proof.
   split; [|vm_compute; repeat split].
   repeat constructor.
